@@ -39,7 +39,7 @@ type vc05Spec struct {
 	Name   string      `json:"name"`
 	Kind   string      `json:"kind"`
 	Meta   [][2][]byte `json:"meta"`
-	Coq    bool        `json:"coq"`  // also written as a Coq case (small runs only)
+	Coq    bool        `json:"coq"`    // also written as a Coq case (small runs only)
 	MetaOK bool        `json:"metaOK"` // false: the metadata is one the format refuses; Seal must fail
 	Sigs   [][64]byte  `json:"-"`
 	Probes [][64]byte  `json:"-"`
@@ -313,7 +313,25 @@ func vc05ReadSpec(specPath string) (*vc05Spec, error) {
 
 // ---------- generators ----------
 
-func vc05Sig(rng *vh.Rng, prefix uint16) [64]byte {
+// vc05SigFromTag: two prefix bytes, then the first 62 bytes of eight little-endian words expanded from a
+// 64-bit tag (C05_Check.sg expands the same way, which keeps the Coq case files short; bucketteer only
+// looks at the prefix and at the hash of the whole signature).
+func vc05SigFromTag(prefix uint16, t uint64) [64]byte {
+	var buf, s [64]byte
+	x := t
+	for i := 0; i < 8; i++ {
+		binary.LittleEndian.PutUint64(buf[8*i:], x)
+		x = x*6364136223846793005 + 1442695040888963407
+	}
+	binary.LittleEndian.PutUint16(s[:2], prefix)
+	copy(s[2:], buf[:62])
+	return s
+}
+
+func vc05Sig(rng *vh.Rng, prefix uint16) [64]byte { return vc05SigFromTag(prefix, rng.U64()) }
+
+// vc05SigRandom: 62 independent random bytes (bulk runs).
+func vc05SigRandom(rng *vh.Rng, prefix uint16) [64]byte {
 	var s [64]byte
 	copy(s[:], rng.Bytes(64))
 	binary.LittleEndian.PutUint16(s[:2], prefix)
@@ -354,14 +372,17 @@ func vc05PopSpec(rng *vh.Rng, name, kind string, prefixes []uint16, pops []int, 
 			spec.Probes = append(spec.Probes, distinct[rng.Intn(len(distinct))])
 		}
 	}
-	for _, p := range prefixes {
-		spec.Probes = append(spec.Probes, vc05Sig(rng, p), vc05Sig(rng, p))
-		spec.Probes = append(spec.Probes, vc05Sig(rng, vc05Swap(p)))
-		// same body as an added signature, neighbouring prefix
-		if len(distinct) > 0 {
-			s := distinct[rng.Intn(len(distinct))]
-			binary.LittleEndian.PutUint16(s[:2], p+1)
-			spec.Probes = append(spec.Probes, s)
+	for pi, p := range prefixes {
+		spec.Probes = append(spec.Probes, vc05Sig(rng, p))
+		if pi < 3 || pi%4 == 0 {
+			spec.Probes = append(spec.Probes, vc05Sig(rng, p))
+			spec.Probes = append(spec.Probes, vc05Sig(rng, vc05Swap(p)))
+			// same body as an added signature, neighbouring prefix
+			if len(distinct) > 0 {
+				s := distinct[rng.Intn(len(distinct))]
+				binary.LittleEndian.PutUint16(s[:2], p+1)
+				spec.Probes = append(spec.Probes, s)
+			}
 		}
 	}
 	for i := 0; i < 3; i++ {
@@ -427,7 +448,10 @@ func vc05Specs(rng *vh.Rng, ver int, thorough bool, nCoq int) []*vc05Spec {
 	// --- small runs, also evaluated by the Coq model ---
 	coq := 0
 	addCoq := func(s *vc05Spec) {
-		if coq < nCoq {
+		// runs whose Seal is refused cost the model nothing; the others count against the budget
+		if !s.MetaOK {
+			s.Coq = true
+		} else if coq < nCoq {
 			s.Coq = true
 			coq++
 		}
@@ -440,8 +464,42 @@ func vc05Specs(rng *vh.Rng, ver int, thorough bool, nCoq int) []*vc05Spec {
 		for i := range pops {
 			pops[i] = 1 + rng.Intn(3)
 		}
-		s := vc05PopSpec(rng, name("edge", 0), "edge-prefixes", ps, pops, 30, 12)
+		nPresent := 12
+		if ver == 2 {
+			nPresent = 6 // reading a probe from the 900 KB file costs the model seconds
+		}
+		s := vc05PopSpec(rng, name("edge", 0), "edge-prefixes", ps, pops, 30, nPresent)
 		s.Meta, s.MetaOK = vc05Meta(rng, ver, 1)
+		addCoq(s)
+	}
+	// no signature at all; one signature; one signature three times
+	{
+		s := &vc05Spec{Name: name("empty", 0), Kind: "empty", MetaOK: true}
+		for i := 0; i < 4; i++ {
+			s.Probes = append(s.Probes, vc05Sig(rng, uint16(rng.U64())))
+		}
+		s.Probes = append(s.Probes, vc05Sig(rng, 0), vc05Sig(rng, 0xFFFF))
+		cheap := ver == 1 || thorough
+		if cheap {
+			addCoq(s)
+		} else {
+			specs = append(specs, s)
+		}
+		one := vc05Sig(rng, uint16(rng.U64()))
+		s1 := &vc05Spec{Name: name("single", 0), Kind: "single", MetaOK: true, Sigs: [][64]byte{one, one, one}}
+		s1.Probes = [][64]byte{one, vc05Sig(rng, vc05Prefix(one)), vc05Sig(rng, vc05Swap(vc05Prefix(one))), vc05Sig(rng, 7)}
+		s1.Meta, s1.MetaOK = vc05Meta(rng, ver, 2)
+		if cheap {
+			addCoq(s1)
+		} else {
+			specs = append(specs, s1)
+		}
+	}
+	// metadata the current format refuses: Seal must fail (model: Err), for the legacy format it must work
+	for i, shape := range []int{5, 6} {
+		ps := vc05DistinctPrefixes(rng, 2)
+		s := vc05PopSpec(rng, name("meta", i), "metadata-limits", ps, []int{2, 3}, 0, 5)
+		s.Meta, s.MetaOK = vc05Meta(rng, ver, shape)
 		addCoq(s)
 	}
 	nSmall := 10
@@ -460,29 +518,12 @@ func vc05Specs(rng *vh.Rng, ver int, thorough bool, nCoq int) []*vc05Spec {
 			}
 			tot += pops[j]
 		}
-		s := vc05PopSpec(rng, name("small", i), "small-populations", ps, pops, 25, 14)
-		s.Meta, s.MetaOK = vc05Meta(rng, ver, i%5)
-		addCoq(s)
-	}
-	// no signature at all; one signature; one signature three times
-	{
-		s := &vc05Spec{Name: name("empty", 0), Kind: "empty", MetaOK: true}
-		for i := 0; i < 4; i++ {
-			s.Probes = append(s.Probes, vc05Sig(rng, uint16(rng.U64())))
+		nPresent := 14
+		if ver == 2 {
+			nPresent = 8
 		}
-		s.Probes = append(s.Probes, vc05Sig(rng, 0), vc05Sig(rng, 0xFFFF))
-		addCoq(s)
-		one := vc05Sig(rng, uint16(rng.U64()))
-		s1 := &vc05Spec{Name: name("single", 0), Kind: "single", MetaOK: true, Sigs: [][64]byte{one, one, one}}
-		s1.Probes = [][64]byte{one, vc05Sig(rng, vc05Prefix(one)), vc05Sig(rng, vc05Swap(vc05Prefix(one))), vc05Sig(rng, 7)}
-		s1.Meta, s1.MetaOK = vc05Meta(rng, ver, 2)
-		addCoq(s1)
-	}
-	// metadata the current format refuses: Seal must fail (model: Err), for the legacy format it must work
-	for i, shape := range []int{5, 6} {
-		ps := vc05DistinctPrefixes(rng, 2)
-		s := vc05PopSpec(rng, name("meta", i), "metadata-limits", ps, []int{2, 3}, 0, 5)
-		s.Meta, s.MetaOK = vc05Meta(rng, ver, shape)
+		s := vc05PopSpec(rng, name("small", i), "small-populations", ps, pops, 25, nPresent)
+		s.Meta, s.MetaOK = vc05Meta(rng, ver, i%5)
 		addCoq(s)
 	}
 	// one middle-sized bucket for the model as well
@@ -531,13 +572,13 @@ func vc05Specs(rng *vh.Rng, ver int, thorough bool, nCoq int) []*vc05Spec {
 		}
 		s := &vc05Spec{Name: name("random", 0), Kind: "random-prefixes", MetaOK: true}
 		for i := 0; i < n; i++ {
-			s.Sigs = append(s.Sigs, vc05Sig(rng, uint16(rng.U64())))
+			s.Sigs = append(s.Sigs, vc05SigRandom(rng, uint16(rng.U64())))
 		}
 		for i := 0; i < n/20; i++ {
 			s.Sigs = append(s.Sigs, s.Sigs[rng.Intn(n)])
 		}
 		for i := 0; i < 2000; i++ {
-			s.Probes = append(s.Probes, vc05Sig(rng, uint16(rng.U64())))
+			s.Probes = append(s.Probes, vc05SigRandom(rng, uint16(rng.U64())))
 		}
 		for i := 0; i < 500; i++ {
 			x := s.Sigs[rng.Intn(n)]
@@ -567,13 +608,17 @@ func vc05Specs(rng *vh.Rng, ver int, thorough bool, nCoq int) []*vc05Spec {
 // ---------- Coq printing ----------
 
 func vc05CoqSig(s [64]byte) string {
-	// sg p0 p1 t with t the little-endian number of the remaining 62 bytes
+	// compact form when the body is the expansion of its first word
+	t := binary.LittleEndian.Uint64(s[2:10])
+	if vc05SigFromTag(vc05Prefix(s), t) == s {
+		return fmt.Sprintf("(sg %d %d %d)", s[0], s[1], t)
+	}
+	// general form: sgx p0 p1 t with t the little-endian number of the remaining 62 bytes
 	rev := make([]byte, 62)
 	for i := 0; i < 62; i++ {
 		rev[i] = s[63-i]
 	}
-	t := new(big.Int).SetBytes(rev)
-	return fmt.Sprintf("(sg %d %d %s)", s[0], s[1], t.String())
+	return fmt.Sprintf("(sgx %d %d %s)", s[0], s[1], new(big.Int).SetBytes(rev).String())
 }
 
 func vc05CoqSigs(xs [][64]byte) string {
@@ -606,9 +651,9 @@ func vc05Obs(o int) string {
 }
 
 type vc05Seg struct {
-	kind       int // 0 lit, 1 rep, 2 arith
-	n          uint64
-	bs         []byte
+	kind        int // 0 lit, 1 rep, 2 arith
+	n           uint64
+	bs          []byte
 	p, dp, o, d uint64
 }
 
@@ -630,10 +675,26 @@ func vc05Compress(b []byte) []vc05Seg {
 	i := 0
 outer:
 	for i < len(b) {
+		for _, pl := range []int{4, 8, 1} {
+			if i+pl*4 <= len(b) {
+				n := 1
+				for i+pl*(n+1) <= len(b) && bytes.Equal(b[i:i+pl], b[i+pl*n:i+pl*(n+1)]) {
+					n++
+				}
+				if n*pl >= 24 {
+					flush()
+					out = append(out, vc05Seg{kind: 1, n: uint64(n), bs: append([]byte(nil), b[i:i+pl]...)})
+					i += pl * n
+					continue outer
+				}
+			}
+		}
 		if i+40 <= len(b) {
 			p0, o0 := rec(i)
 			p1, o1 := rec(i + 10)
-			if p1 >= p0 && o1 >= o0 {
+			// only plain tables (prefix steps by 1, moderate offsets): a misaligned view of the table
+			// is an arithmetic progression too, but of huge numbers that are slow to re-encode in Coq
+			if p1 == p0+1 && o1 >= o0 && o1-o0 < 1<<32 && o0 < 1<<48 {
 				dp, d := p1-p0, o1-o0
 				n := 2
 				pp, po := p1, o1
@@ -650,20 +711,6 @@ outer:
 					flush()
 					out = append(out, vc05Seg{kind: 2, n: uint64(n), p: p0, dp: dp, o: o0, d: d})
 					i += 10 * n
-					continue outer
-				}
-			}
-		}
-		for _, pl := range []int{4, 8, 1} {
-			if i+pl*4 <= len(b) {
-				n := 1
-				for i+pl*(n+1) <= len(b) && bytes.Equal(b[i:i+pl], b[i+pl*n:i+pl*(n+1)]) {
-					n++
-				}
-				if n*pl >= 24 {
-					flush()
-					out = append(out, vc05Seg{kind: 1, n: uint64(n), bs: append([]byte(nil), b[i:i+pl]...)})
-					i += pl * n
 					continue outer
 				}
 			}
@@ -790,6 +837,9 @@ func vc05Absorb(rep *vh.Report, cases *vh.CasesFile, spec *vc05Spec, res *vc05Re
 func vc05HashCases(rng *vh.Rng, cases *vh.CasesFile, n int) {
 	for i := 0; i < n; i++ {
 		s := vc05Sig(rng, uint16(rng.U64()))
+		if i%4 == 3 {
+			s = vc05SigRandom(rng, uint16(rng.U64()))
+		}
 		if i == 0 {
 			s = [64]byte{}
 		}
